@@ -507,7 +507,7 @@ func c02(args []string) int {
 	log.Proxy.SetLogLevel(log.FATAL)
 	registerProtocols()
 	r := run.R
-	run.Sum.Rule = "histories on one real xprotocol client stream connection (stream.NewStreamClient over a recording connection; id generators = the real GenerateRequestID of bolt (uint32), tars (int32, sign-extended), dubbo (uint64), and the real bolt codec end to end): families perm (N<=5 streams, responses in EVERY permutation), dup (every response twice / unknown ids), late (response after stream reset), connreset (connection reset at EVERY position of a base history), wrap (counter preset just below 2^31, 2^32, 2^63, 2^64 so the ids wrap inside the history), random (8-40 ops over {new, one-way, response to any stream's id incl. completed ones, unknown id, stream reset incl. stale and repeated, connection reset}); non-trivial: at least 2 streams and one op other than new/response-in-order; distinct by (generator, initial counter, op sequence). Pooled mode (families pooled-late, pooled-random): 2-3 connections in one history, every request with its own buffer-pool context that is given back to the REAL pool when the request ends, so the pooled xStream struct is reused by later requests on the same or another connection; a reset connection is dead afterwards; late replies for reset requests on the healthy connections. Concurrent mode: the same operations from concurrent goroutines, delivery soundness only."
+	run.Sum.Rule = "histories on one real xprotocol client stream connection (stream.NewStreamClient over a recording connection; id generators = the real GenerateRequestID of bolt (uint32), tars (int32, sign-extended), dubbo (uint64), and the real bolt codec end to end): families perm (N<=5 streams, responses in EVERY permutation), dup (every response twice / unknown ids), late (response after stream reset), connreset (connection reset at EVERY position of a base history), wrap (counter preset just below 2^31, 2^32, 2^63, 2^64 so the ids wrap inside the history), random (8-40 ops over {new, one-way, response to any stream's id incl. completed ones, unknown id, stream reset incl. stale and repeated, connection reset}); non-trivial: at least 2 streams and one op other than new/response-in-order; distinct by (generator, initial counter, op sequence). Pooled mode (families pooled-late, pooled-random): 2-3 connections in one history, every request with its own buffer-pool context that is given back to the REAL pool when the request ends, so the pooled xStream struct is reused by later requests on the same or another connection; a reset connection is dead afterwards; late replies for reset requests on the healthy connections. Concurrent allocation: 8-16 goroutines allocate 4-128 ids each (half of the rounds start 1-2g below the wrap point) on one counter preset so that it crosses 2^31 / 2^32 / 2^64 while they run, through the real GenerateRequestID of bolt/tars/dubbo (3 of 4 rounds directly, 1 of 4 through streamConn.NewStream), ids must be pairwise distinct, for ~5 s (quick). Concurrent mode: the same operations from concurrent goroutines, delivery soundness only."
 	gens := []string{"GenU32", "GenS32", "GenU64", "bolt"}
 	wraps := map[string][]uint64{
 		"GenU32": {0, 1<<32 - 3, 1<<32 - 1, 1<<31 - 2, 1<<64 - 2, 1<<33 - 2},
@@ -625,6 +625,7 @@ func c02(args []string) int {
 	}
 	sh.Close()
 
+	c02alloc(run)
 	c02pooled(run)
 	c02server(run)
 	c02concurrent(run)
